@@ -34,8 +34,8 @@ tu = hdr.replace("#include <stdio.h>\n", "") + '''
 struct Row { char kind[4]; char name[72]; unsigned v[4]; };
 #define R(k, n, a, b, c, d) {k, n, {(unsigned) (a), (unsigned) (b), (unsigned) (c), (unsigned) (d)}},
 #define S(name, CT, XT) R("S", name, sizeof(CT), alignof(CT), sizeof(XT), alignof(XT))
-#define O(name, CT, cm, XT, xm) R("O", name "." #cm, offsetof(CT, cm), offsetof(XT, xm), sizeof(((CT*) 0)->cm), sizeof(((XT*) 0)->xm))
-''' + "\n".join(typedefs) + '''
+#define O(name, CT, cm, XT, xm) R("O", name "." #cm, probe_##cm::off<CT>(0), probe_##xm::off<XT>(0), probe_##cm::size<CT>(0), probe_##xm::size<XT>(0))
+''' + src[src.index("/* A member that one side"):src.index("/*MEMBER-PROBES-END*/")] + "\n".join(typedefs) + '''
 extern "C" const Row vk_layout_rows[] = {
 ''' + "\n".join("    " + r for r in rows) + '''
     {"E", "end", {0, 0, 0, 0}}
